@@ -31,7 +31,9 @@ CONSTANTS TopicSeq,        \* sequence of topic names, e.g. <<"tk","tu">>
           DevGateAfterAppend,   \* deviation: "none" | "lease" | "acl": that Produce guard is evaluated after the append
           DevLeaseCheckSkipped, \* deviation: Produce ignores the lease result
           DevFetchAclOnRequestName, \* deviation: Fetch authorizes the request's name field (empty when the topic is addressed by id)
-          DevStaleOwnedOnSessionReplace  \* deviation: replacing a dead lease session keeps the old ownership map
+          DevStaleOwnedOnSessionReplace, \* deviation: replacing a dead lease session keeps the old ownership map
+          DevLeaseErrMisindexed \* deviation: AcquireAll stores the k-th acquire result at request position k (not at the
+                                \*            position of the partition it belongs to) when owned partitions are skipped
 VARIABLES auto, topics, nparts, recs, opened, health, storeUp, etcdOwner, aOwns, closed, leaseDown,
           sessDead,    \* the broker's lease session has expired in etcd and the manager has not processed it yet
           monParked,   \* the manager's session monitor for that session has not run yet
@@ -166,9 +168,8 @@ LeaseOutcome(x) ==
 
 \* ---------------------------------------------------------------- Produce
 \* returns [st, item, ch] for partition x = <<t, p>> given the threaded state
-ProduceOne(st, perms, t, p, names, ownsAfter, ownerAfter) ==
+ProduceOne(st, perms, t, p, names, ownsAfter, ownerAfter, lo) ==
   LET x == <<t, p>>
-      lo == LeaseOutcome(x)
       o0 == IF Leasing THEN etcdOwner[x] ELSE ""
       o1s == Leasing /\ x \in ownsAfter
       o1 == IF Leasing THEN ownerAfter[x] ELSE ""
@@ -189,10 +190,17 @@ ProduceOne(st, perms, t, p, names, ownsAfter, ownerAfter) ==
       late == IF denied THEN 29 ELSE IF leaseBad THEN leaseCode ELSE 0
   IN IF early # 0 THEN [st |-> st, item |-> mk(early), ch |-> {}]
      ELSE [st |-> app, item |-> mk(late), ch |-> appCh]
+\* the lease result handleProduce sees for request position i
+NeedSeq(tg) == SelectSeq(tg, LAMBDA y : <<y[1], y[2]>> \notin aOwns)
+LeaseSeen(tg, i) ==
+  IF ~DevLeaseErrMisindexed THEN LeaseOutcome(<<tg[i][1], tg[i][2]>>)
+  ELSE IF i <= Len(NeedSeq(tg))
+       THEN LET o == LeaseOutcome(<<NeedSeq(tg)[i][1], NeedSeq(tg)[i][2]>>) IN IF o \in {"other", "shut", "err"} THEN o ELSE "acq"
+       ELSE "owned"
 RECURSIVE ProduceAll(_, _, _, _, _, _, _)
 ProduceAll(st, perms, tg, i, names, ownsAfter, ownerAfter) ==
   IF i > Len(tg) THEN [st |-> st, items |-> <<>>, ch |-> {}]
-  ELSE LET r == ProduceOne(st, perms, tg[i][1], tg[i][2], names, ownsAfter, ownerAfter)
+  ELSE LET r == ProduceOne(st, perms, tg[i][1], tg[i][2], names, ownsAfter, ownerAfter, LeaseSeen(tg, i))
            rest == ProduceAll(r.st, perms, tg, i + 1, names, ownsAfter, ownerAfter)
        IN [st |-> rest.st, items |-> <<r.item>> \o rest.items, ch |-> r.ch \cup rest.ch]
 
